@@ -83,12 +83,13 @@ APixelData(len, atZero) ==
     /\ chunks' = (chunks + 1) % 65536
     /\ UNCHANGED <<st, cfgd>>
 
-ACount(n) ==
+\* the announced count either equals the counter or it does not (all that matters about it)
+ACount(good) ==
     /\ AReceiving
     /\ \E p2 \in {0, pend}, n2 \in {npages, npages + 1} :
           AFlush(p2, n2) /\ pend' = p2 /\ npages' = n2
-    /\ st' = (IF st = "ConfigInProgress" THEN (IF chunks = n THEN "ConfigReceived" ELSE "ConfigFailed")
-              ELSE (IF chunks = n THEN "PixelsReceived" ELSE "PixelsFailed"))
+    /\ st' = (IF st = "ConfigInProgress" THEN (IF good THEN "ConfigReceived" ELSE "ConfigFailed")
+              ELSE (IF good THEN "PixelsReceived" ELSE "PixelsFailed"))
     /\ chunks' = 0
     /\ UNCHANGED cfgd
 
@@ -101,8 +102,8 @@ Next ==
     \/ AQuery
     \/ \E op \in AOps : ARequest(op)
     \/ AConfigData
-    \/ \E len \in 0..255, z \in BOOLEAN : APixelData(len, z)
-    \/ \E n \in 0..65535 : ACount(n)
+    \/ (st = "PixelsInProgress" /\ \E len \in 0..255, z \in BOOLEAN : APixelData(len, z))
+    \/ (AReceiving /\ \E good \in BOOLEAN : ACount(good))
     \/ APixelsComplete
     \/ ABlank
     \/ UNCHANGED vars                       \* everything else: silent and unchanged
